@@ -88,6 +88,25 @@ type vclock struct {
 	auto  bool        // teardown: Sleep returns at once
 	wakes []time.Time // wake-up instants of goroutines currently inside Sleep
 	slept []string    // log of requested sleep durations
+	naps  []nap       // every Sleep call: when it started (fake time) and how long was asked for
+}
+
+type nap struct {
+	Start time.Time
+	Dur   time.Duration
+}
+
+// napsAt returns the Sleep calls that started at fake instant t.
+func (c *vclock) napsAt(t time.Time) []nap {
+	c.mu.Lock()
+	defer c.mu.Unlock()
+	var out []nap
+	for _, n := range c.naps {
+		if n.Start.Equal(t) {
+			out = append(out, n)
+		}
+	}
+	return out
 }
 
 func (c *vclock) setAuto() { c.mu.Lock(); c.auto = true; c.mu.Unlock() }
@@ -101,6 +120,7 @@ func (c *vclock) Sleep(d time.Duration) {
 	wake := c.FakeClock.Now().Add(d)
 	c.wakes = append(c.wakes, wake)
 	c.slept = append(c.slept, d.String())
+	c.naps = append(c.naps, nap{Start: wake.Add(-d), Dur: d})
 	c.mu.Unlock()
 	c.FakeClock.Sleep(d)
 	c.mu.Lock()
